@@ -1586,6 +1586,12 @@ class _Collector(Check):
 def do_replay(path, tier):
     rec = json.load(open(path))
     data, key = rec["data"], rec["key"]
+    if "rejected-at-min-step" in key or (isinstance(data, dict) and "driver" in data and "case" in data and "kind" not in data):
+        import c02stall
+        still = c02stall.replay(data)
+        if still:
+            print(f"VIOLATION property=C02 replay={path}")
+        return 1 if still else 0
     kind = data["kind"]
     still = False
     if kind in ("order", "rowsum", "eannih", "dense", "prow", "factory", "edegenerate"):
@@ -1670,9 +1676,9 @@ def main(tier=None, replay=None):
         "(tables_not_exact): their conditions up to order 8 are checked only as a [T]-tier float contract (<= 1e-11, "
         "unchanged tree 5e-14); DOP853's E3/E5/D are not checked",
         "exact step instances use C[0] = 0 (the kernels evaluate stage 0 at t) and lower-triangular A",
-        "driver model: the step kernel and the PI controller are the environment; a rejected step is retried with a "
-        "strictly smaller step (the real controller stalls forever if the error test fails at h = min_step: observation "
-        "outside C02)",
+        "driver model (StepDriver.tla): the step kernel and the PI controller are the environment; a rejected step is retried "
+        "with a strictly smaller step; what happens when it cannot be (error test fails at h = min_step) is decided "
+        "separately by StepStall.tla (termination) and c02stall.py (compiled drivers in sub-processes)",
         "B2 observes the driver SOURCE (.py_func); outputs are compared with the compiled driver on the same inputs "
         "(bit-identical for DOP853; within 1e-12 for RK45, whose np.linalg.norm differs in the last bit between numpy and numba)",
         "error <= K * tol and its shrinking with tol are checked as a [T] contract on closed-form problems (c02acc.py: forced "
@@ -1680,4 +1686,6 @@ def main(tier=None, replay=None):
         "measured O(h^p) rates and DOP853's error weights (E3, E5) are not decided"]
     import c02acc
     c02acc.run(ck)
+    import c02stall
+    c02stall.run(ck)
     return ck.finish()
